@@ -54,6 +54,8 @@ def withdraw_unconfirmed(ctx, chk):
         by_site.setdefault((f.file, f.qual), k)
     n = 0
     for ident, f in list(chk.findings.items()):
+        if ident in getattr(chk, "positive", ()):
+            continue
         cands = set()
         if isinstance(f.key, dict) and f.key.get("function"):
             cands.add(str(f.key["function"]))
@@ -100,7 +102,7 @@ def withdraw_by_second_pass(ctx, chk, mod, make_ctx):
     n = 0
     for f in unlisted:
         ident = f.ident()
-        if ident not in chk2.findings and ident in chk.findings:
+        if ident not in chk2.findings and ident in chk.findings and ident not in getattr(chk, "positive", ()):
             del chk.findings[ident]
             n += 1
             chk.error(f.rule, "cannot decide `%s`: it depends on what may be raised inside function(s) this rule was never confirmed against (%s)" % (
